@@ -134,9 +134,6 @@ class BitArray(Bits):
                 raise CreationError(f"Can't initialise with value of length {len(x)} bits, "
                                     f"as attribute has length of {dtype.bitlength} bits.")
             self._bitstore = x._bitstore
-            # For streams the new value can be shorter than the old one, so the bit position may no longer be valid.
-            if hasattr(self, '_pos') and self._pos > len(self):
-                self._pos = 0
             return
 
     def __iadd__(self, bs: BitsType) -> BitArray:
